@@ -10,6 +10,7 @@ converter) are judged.
 from __future__ import annotations
 
 import copy
+import json
 
 from .. import observe, tokens
 from ..core import Machine, Violation
@@ -43,7 +44,7 @@ class C10Machine(Machine):
         "transitive_curie_remap_applied", "uri_remap_applied", "rewire_applied",
         "chain_merged_later_into_earlier", "discover_with_known_uris", "lineage_depth_ge_3",
         "sub_nonempty", "mutation_right_after_derivation", "chain_same_converter_twice",
-        "curie_remap_applied", "large_root", "followup_add_with_pattern", "same_record_followed_through_lineage", "empty_mapping", "empty_prefix_subset", "same_derivation_again", "root_with_more_than_256_records",
+        "curie_remap_applied", "large_root", "followup_add_with_pattern", "same_record_followed_through_lineage", "empty_mapping", "empty_prefix_subset", "same_derivation_again", "alternating_lookups", "root_with_more_than_256_records",
     ]
 
     @classmethod
@@ -538,6 +539,7 @@ class C10Machine(Machine):
                     raise Violation(PROP, "not_new_object", site, {"op": op, "same_object_as_converter": oid})
             h = self._add(result, hs, kind, op.get("out"))
             self._reach_after_derivation(kind, op, hs, result)
+            self._alternate(result, sorted(set(hs)), None, site, "input_changed", op)
             self.last_was_derivation = h
             if self._depth(h) >= 3:
                 self.probe("lineage_depth_ge_3")
@@ -625,6 +627,8 @@ class C10Machine(Machine):
             if now != ae.lite:
                 raise Violation(PROP, "leak_to_ancestor", site,
                                 {"mutated": h, "ancestor": a, "diff": observe.diff(ae.lite, now), "op": op})
+        if anc:
+            self._alternate(e.conv, anc, rd["prefix"], site, "leak_to_ancestor", op)
         if err is None and rd.get("pattern") and anc:
             self.probe("followup_add_with_pattern")
         if err is None and op["merge"] and hit_inherited and anc:
@@ -636,6 +640,35 @@ class C10Machine(Machine):
         self._refresh_unstated(exclude=set(anc) | {h})
         self._note("mutate_" + op["kind"], "rejected" if err else "accepted")
         return {"mutated": h, "rejected": type(err).__name__ if err else None}
+
+    def _alternate(self, near, far_ids, hint, site, kind_of_violation, op):
+        """Ask a converter and its inputs / ancestors the SAME string in immediately consecutive lookups
+        (derived first, input next): state shared between them that only remembers the most recent
+        lookup is invisible to whole-converter passes, which never end and begin on the same string."""
+        cands = [x for x in self.strings if hint and x.startswith(hint)][:3]
+        k = self.steps % max(1, len(self.strings))
+        cands += [self.strings[k], self.strings[(k + 7) % len(self.strings)]]
+        pcands = [pr for pr in self.pairs if hint and pr[0] == hint][:1] + [self.pairs[self.steps % len(self.pairs)]]
+        for a in far_ids[:3]:
+            ae = self.entries[a]
+            for x in dict.fromkeys(cands):
+                observe.answers(near, [x], [], full=False)
+                got = observe.answers(ae.conv, [x], [], full=False)["strings"][x]
+                want = ae.lite["answers"]["strings"].get(x)
+                if want is not None and got != want:
+                    raise Violation(PROP, kind_of_violation, site,
+                                    {"ancestor": a, "asked_right_after_the_other_converter": x,
+                                     "diff": observe.diff(want, got), "op": op})
+            for pr in dict.fromkeys(pcands):
+                key = json.dumps([pr[0], pr[1]], ensure_ascii=True)
+                observe.answers(near, [], [pr], full=False)
+                got = observe.answers(ae.conv, [], [pr], full=False)["pairs"][key]
+                want = ae.lite["answers"]["pairs"].get(key)
+                if want is not None and got != want:
+                    raise Violation(PROP, kind_of_violation, site,
+                                    {"ancestor": a, "asked_right_after_the_other_converter": list(pr),
+                                     "diff": observe.diff(want, got), "op": op})
+        self.probe("alternating_lookups")
 
     def _refresh_unstated(self, exclude):
         """Descendants / siblings: a direction the property does not state. Count, refresh, never report."""
